@@ -7,10 +7,11 @@
 
     Layout as in the code: [DEPTH = 3] internal levels with [NCH = 4] children
     each (2 index bits per level), leaves with [NLEAF = 16] entries (4 index
-    bits), [NKEYS = 16 * 4^3 = 1024].  A node is 40 bytes, a leaf 136 bytes,
-    the pool embedded in the thread descriptor is [3 * 40 + 136 = 256] bytes
-    (the harness prints the real [sizeof]s and the check compares them with
-    [consts] below on every run).
+    bits), [NKEYS = 16 * 4^3 = 1024].  A node is 40 bytes; the leaf size and the
+    size of the pool embedded in the thread descriptor (one root-to-leaf spine:
+    [3 * 40 + leaf]) depend on the variant of the source, see [cfg] below (the
+    harness prints the real [sizeof]s and the check compares them with [consts]
+    on every run).
 
     Memory: a node carries its [origin] - the offset inside the embedded bump
     pool ([Pool off]) or the serial number of the [myth_malloc] call that
